@@ -416,20 +416,25 @@ func windingOrderIsCorrect(ring [][2]float64, shouldBeClockwise bool) bool {
 	return wo.IsClockwise() && shouldBeClockwise || wo.IsCounterClockwise() && !shouldBeClockwise || wo.IsColinear()
 }
 
-// TODO: rewrite by using intgeoms for as long as possible
-func isHitMultiple(hitMultiple map[intgeom.Point][]int, vertex [2]float64, ringIdx int) bool {
-	intVertex := intgeom.FromGeomPoint(vertex)
-	return slices.Contains(hitMultiple[intVertex], ringIdx) || // exact match
-		slices.Contains(hitMultiple[intgeom.Point{intVertex[xAx] + 1, intVertex[yAx]}], ringIdx) || // fuzzy search
-		slices.Contains(hitMultiple[intgeom.Point{intVertex[xAx] - 1, intVertex[yAx]}], ringIdx) ||
-		slices.Contains(hitMultiple[intgeom.Point{intVertex[xAx], intVertex[yAx] + 1}], ringIdx) ||
-		slices.Contains(hitMultiple[intgeom.Point{intVertex[xAx], intVertex[yAx] - 1}], ringIdx)
+// isHitMultiple looks up the vertex (a pixel centre as handed out by PointIndex.SnapClosestPoints)
+// by the same float representation it was handed out with, so the lookup is exact
+func isHitMultiple(hitMultiple map[[2]float64][]int, vertex [2]float64, ringIdx int) bool {
+	return slices.Contains(hitMultiple[vertex], ringIdx)
+}
+
+func hitMultipleByGeomPoint(hitMultiple map[intgeom.Point][]int) map[[2]float64][]int {
+	byGeomPoint := make(map[[2]float64][]int, len(hitMultiple))
+	for intPoint, ringIdxs := range hitMultiple {
+		byGeomPoint[intPoint.ToGeomPoint()] = ringIdxs
+	}
+	return byGeomPoint
 }
 
 // split ring into multiple rings at any point where the ring goes through the point more than once
 //
 //nolint:cyclop,gocritic
-func splitRing(ring [][2]float64, isOuter bool, hitMultiple map[intgeom.Point][]int, ringIdx int) (outerRings, innerRings, pointsAndLines [][][2]float64) {
+func splitRing(ring [][2]float64, isOuter bool, intHitMultiple map[intgeom.Point][]int, ringIdx int) (outerRings, innerRings, pointsAndLines [][][2]float64) {
+	hitMultiple := hitMultipleByGeomPoint(intHitMultiple)
 	partialRingIdx := 0
 	stack := orderedmap.New[int, [][2]float64]()
 	stack.Set(partialRingIdx, [][2]float64{})
